@@ -39,6 +39,192 @@ func pickUint(rng *chain.Rng) sdk.Uint {
 	return sdk.NewUintFromBigInt(cands[rng.Intn(len(cands))])
 }
 
+
+// ---- policy state as the Coq model sees it (Model/ClpPolicy.v) ----
+
+type polState struct {
+	Height                      int64
+	Max, Cur                    *big.Int
+	Epoch                       uint64
+	Active                      bool
+	Start, End, EpochLen        int64
+	Gov, Block, Running, Inter  *big.Int
+	Epochs, Blocks              int64
+	Rewards                     []*clptypes.RewardPeriod
+	Lppd                        []*clptypes.ProviderDistributionPeriod
+}
+
+func decBig(d sdk.Dec) *big.Int {
+	if d.IsNil() {
+		return new(big.Int)
+	}
+	return new(big.Int).Set(d.BigInt())
+}
+
+func polSnapshot(e *env.Env, height int64) polState {
+	ctx := e.Ctx()
+	k := e.App.ClpKeeper
+	lp := k.GetLiquidityProtectionParams(ctx)
+	pp := k.GetPmtpParams(ctx)
+	pr := k.GetPmtpRateParams(ctx)
+	pe := k.GetPmtpEpoch(ctx)
+	st := polState{Height: height, Max: bi(lp.MaxRowanLiquidityThreshold), Cur: bi(k.GetLiquidityProtectionRateParams(ctx).CurrentRowanLiquidityThreshold),
+		Epoch: lp.EpochLength, Active: lp.IsActive, Start: pp.PmtpPeriodStartBlock, End: pp.PmtpPeriodEndBlock, EpochLen: pp.PmtpPeriodEpochLength,
+		Gov: decBig(pp.PmtpPeriodGovernanceRate), Block: decBig(pr.PmtpPeriodBlockRate), Running: decBig(pr.PmtpCurrentRunningRate), Inter: decBig(pr.PmtpInterPolicyRate),
+		Epochs: pe.EpochCounter, Blocks: pe.BlockCounter}
+	st.Rewards = k.GetRewardsParams(ctx).RewardPeriods
+	st.Lppd = k.GetProviderDistributionParams(ctx).DistributionPeriods
+	return st
+}
+
+func bi(u sdk.Uint) *big.Int {
+	if u.BigInt() == nil {
+		return new(big.Int)
+	}
+	return new(big.Int).Set(u.BigInt())
+}
+
+func assetID(e *env.Env, sym string) int64 {
+	if id, ok := e.DenomID[sym]; ok {
+		return id
+	}
+	return 99
+}
+
+func encLppd(en *env.Enc, p *clptypes.ProviderDistributionPeriod) {
+	en.Z(decBig(p.DistributionPeriodBlockRate)).U(p.DistributionPeriodStartBlock).U(p.DistributionPeriodEndBlock).U(p.DistributionPeriodMod)
+}
+
+func (st polState) enc(en *env.Enc, e *env.Env) {
+	en.I(st.Height).Z(st.Max).U(st.Epoch).B(st.Active).Z(st.Cur)
+	en.I(st.Start).I(st.End).I(st.EpochLen).Z(st.Gov).Z(st.Block).Z(st.Running).Z(st.Inter).I(st.Epochs).I(st.Blocks)
+	en.Len(len(st.Rewards))
+	for _, r := range st.Rewards {
+		al := new(big.Int)
+		if r.RewardPeriodAllocation != nil {
+			al = bi(*r.RewardPeriodAllocation)
+		}
+		en.U(r.RewardPeriodStartBlock).U(r.RewardPeriodEndBlock).Z(al).Len(len(r.RewardPeriodPoolMultipliers))
+		for _, m := range r.RewardPeriodPoolMultipliers {
+			mv := new(big.Int)
+			if m != nil && m.Multiplier != nil {
+				mv = decBig(*m.Multiplier)
+			}
+			en.I(assetID(e, m.PoolMultiplierAsset)).Z(mv)
+		}
+		df := new(big.Int)
+		if r.RewardPeriodDefaultMultiplier != nil {
+			df = decBig(*r.RewardPeriodDefaultMultiplier)
+		}
+		en.Z(df).B(r.RewardPeriodDistribute).U(r.RewardPeriodMod)
+	}
+	en.Len(len(st.Lppd))
+	for _, p := range st.Lppd {
+		encLppd(en, p)
+	}
+}
+
+func encField(en *env.Enc, s string) {
+	if s == "" {
+		en.I(0)
+		return
+	}
+	d, err := sdk.NewDecFromStr(s)
+	if err != nil {
+		en.I(1)
+		return
+	}
+	en.I(2).Z(decBig(d))
+}
+
+// encPolicyMsg renders a policy message for Check/Policy.v; false if the model does not cover the kind.
+func encPolicyMsg(en *env.Enc, e *env.Env, msg sdk.Msg) bool {
+	switch m := msg.(type) {
+	case *clptypes.MsgAddRewardPeriodRequest:
+		en.I(0).Len(len(m.RewardPeriods))
+		for _, r := range m.RewardPeriods {
+			en.B(r.RewardPeriodId == "").U(r.RewardPeriodStartBlock).U(r.RewardPeriodEndBlock)
+			if r.RewardPeriodAllocation == nil {
+				en.I(0)
+			} else {
+				en.I(1).Z(bi(*r.RewardPeriodAllocation))
+			}
+			en.Len(len(r.RewardPeriodPoolMultipliers))
+			for _, pm := range r.RewardPeriodPoolMultipliers {
+				en.I(assetID(e, pm.PoolMultiplierAsset))
+				if pm.Multiplier == nil {
+					en.I(0)
+				} else {
+					en.I(1).Z(decBig(*pm.Multiplier))
+				}
+			}
+			if r.RewardPeriodDefaultMultiplier == nil {
+				en.I(0)
+			} else {
+				en.I(1).Z(decBig(*r.RewardPeriodDefaultMultiplier))
+			}
+			en.B(r.RewardPeriodDistribute).U(r.RewardPeriodMod)
+		}
+	case *clptypes.MsgAddProviderDistributionPeriodRequest:
+		en.I(1).Len(len(m.DistributionPeriods))
+		for _, p := range m.DistributionPeriods {
+			encLppd(en, p)
+		}
+	case *clptypes.MsgUpdatePmtpParams:
+		en.I(2)
+		encField(en, m.PmtpPeriodGovernanceRate)
+		en.I(m.PmtpPeriodEpochLength).I(m.PmtpPeriodStartBlock).I(m.PmtpPeriodEndBlock)
+	case *clptypes.MsgModifyPmtpRates:
+		en.I(3)
+		encField(en, m.BlockRate)
+		encField(en, m.RunningRate)
+		en.B(m.EndPolicy)
+	case *clptypes.MsgUpdateLiquidityProtectionParams:
+		en.I(4).Z(bi(m.MaxRowanLiquidityThreshold)).U(m.EpochLength).B(m.IsActive)
+	case *clptypes.MsgModifyLiquidityProtectionRates:
+		en.I(5).Z(bi(m.CurrentRowanLiquidityThreshold))
+	default:
+		return false
+	}
+	return true
+}
+
+// polCases collects the encoded correspondence cases of one check run.
+type polCases struct {
+	items []string
+	next  int
+}
+
+func (pc *polCases) addMsg(e *env.Env, msg sdk.Msg, ok bool, pre, post polState) int {
+	en := &env.Enc{}
+	en.I(int64(pc.next)).I(1)
+	if !encPolicyMsg(en, e, msg) {
+		return -1
+	}
+	en.B(ok)
+	pre.enc(en, e)
+	post.enc(en, e)
+	pc.items = append(pc.items, en.Coq())
+	pc.next++
+	return pc.next - 1
+}
+
+func (pc *polCases) addBegin(e *env.Env, panicked bool, pre, post polState) int {
+	en := &env.Enc{}
+	en.I(int64(pc.next)).I(2)
+	if panicked {
+		en.I(0)
+	} else {
+		en.I(1).Z(post.Block)
+	}
+	en.B(!panicked)
+	pre.enc(en, e)
+	post.enc(en, e)
+	pc.items = append(pc.items, en.Coq())
+	pc.next++
+	return pc.next - 1
+}
+
 // c10Case is one accepted-or-rejected policy message followed by blocks.
 type c10Case struct {
 	ID       int
@@ -109,6 +295,17 @@ func buildPolicyMsg(e *env.Env, rng *chain.Rng, kind int) (string, sdk.Msg, map[
 	adm := e.Admin.Addr.String()
 	f := map[string]interface{}{}
 	switch kind {
+	case 100: // corpus, finding F-15: an allocation of 2^256-1
+		a := sdk.NewUintFromBigInt(new(big.Int).Sub(pow2(256), big.NewInt(1)))
+		one := sdk.OneDec()
+		p := &clptypes.RewardPeriod{RewardPeriodId: "rp1", RewardPeriodStartBlock: uint64(h + 1), RewardPeriodEndBlock: uint64(h + 4), RewardPeriodAllocation: &a,
+			RewardPeriodDefaultMultiplier: &one, RewardPeriodDistribute: false, RewardPeriodMod: 1}
+		f["allocation"], f["start"], f["end"], f["mod"], f["default_multiplier"] = a.String(), h+1, h+4, 1, "1"
+		return "MsgAddRewardPeriodRequest", &clptypes.MsgAddRewardPeriodRequest{Signer: adm, RewardPeriods: []*clptypes.RewardPeriod{p}}, f
+	case 101: // corpus, finding F-16: a governance rate of 1e38
+		m := &clptypes.MsgUpdatePmtpParams{Signer: adm, PmtpPeriodGovernanceRate: "100000000000000000000000000000000000000", PmtpPeriodEpochLength: 2, PmtpPeriodStartBlock: h + 1, PmtpPeriodEndBlock: h + 6}
+		f["gov_rate"], f["epoch_length"], f["start"], f["end"] = m.PmtpPeriodGovernanceRate, m.PmtpPeriodEpochLength, m.PmtpPeriodStartBlock, m.PmtpPeriodEndBlock
+		return "MsgUpdatePmtpParams", m, f
 	case 0: // reward period
 		p := &clptypes.RewardPeriod{RewardPeriodId: "rp1"}
 		if rng.Intn(2) == 0 {
@@ -213,15 +410,40 @@ func buildPolicyMsg(e *env.Env, rng *chain.Rng, kind int) (string, sdk.Msg, map[
 	}
 }
 
+// outsideEnvelope names the magnitude convention of DESIGN.md section 5 that an accepted policy message exceeds
+// (validation does not enforce these; hook panics caused by them are the recorded findings F-15 / F-16).
+func outsideEnvelope(msg sdk.Msg) string {
+	switch m := msg.(type) {
+	case *clptypes.MsgAddRewardPeriodRequest:
+		for _, r := range m.RewardPeriods {
+			if r.RewardPeriodAllocation != nil && r.RewardPeriodAllocation.BigInt().BitLen() > 128 {
+				return "reward-allocation-above-2^128"
+			}
+		}
+	case *clptypes.MsgUpdatePmtpParams:
+		if d, err := sdk.NewDecFromStr(m.PmtpPeriodGovernanceRate); err == nil && d.GT(sdk.NewDec(5)) {
+			return "governance-rate-above-5"
+		}
+	}
+	return ""
+}
+
 // runBlocks runs n blocks with traffic; returns the first hook panic.
-func runBlocks(e *env.Env, rng *chain.Rng, n int) (done int, panicMsg, where string) {
+func runBlocks(e *env.Env, rng *chain.Rng, n int, pc *polCases, rep *report.Report, desc map[string]interface{}) (done int, panicMsg, where string) {
 	for b := 0; b < n; b++ {
 		traffic(e, rng)
 		if e.EndBlock() {
 			return b, fmt.Sprint(e.HookPanic), fmt.Sprintf("EndBlock of height %d", e.Height)
 		}
 		e.Commit()
-		if e.BeginBlock() {
+		pre := polSnapshot(e, e.Height+1)
+		panicked := e.BeginBlock()
+		post := polSnapshot(e, e.Height)
+		if pc != nil {
+			id := pc.addBegin(e, panicked, pre, post)
+			rep.CaseIndex[fmt.Sprint(id)] = map[string]interface{}{"after": desc, "begin_block_of_height": e.Height, "panicked": panicked}
+		}
+		if panicked {
 			return b, fmt.Sprint(e.HookPanic), fmt.Sprintf("BeginBlock of height %d", e.Height)
 		}
 	}
@@ -234,6 +456,7 @@ func C10(c Ctx) *report.Report {
 	rng := chain.NewRng(c.Seed + 10)
 	id := 0
 	seen := map[string]bool{}
+	pc := &polCases{}
 	// ---- (a) admin policy messages with boundary values, each followed by a policy period of blocks ----
 	n := c.N(480, 8000)
 	for i := 0; i < n; i++ {
@@ -245,6 +468,9 @@ func C10(c Ctx) *report.Report {
 		coins := sdk.NewCoins(sdk.NewCoin("ceth", sdk.NewIntFromBigInt(chain.E(20))))
 		e.Tx(e.Users[2], clptypes.NewMsgAddLiquidityToRewardsBucketRequest(e.Users[2].Addr.String(), coins))
 		kind := rng.Intn(8)
+		if i < 2 {
+			kind = 100 + i // corpus first: the recorded findings F-15 and F-16
+		}
 		cs := c10Case{ID: id}
 		// second message kinds need a first one
 		if kind == 5 && rng.Intn(2) == 0 {
@@ -254,19 +480,26 @@ func C10(c Ctx) *report.Report {
 		if kind == 3 && rng.Intn(3) == 0 { // rates while a policy is running
 			m := &clptypes.MsgUpdatePmtpParams{Signer: e.Admin.Addr.String(), PmtpPeriodGovernanceRate: "0.1", PmtpPeriodEpochLength: 2, PmtpPeriodStartBlock: e.Height + 1, PmtpPeriodEndBlock: e.Height + 6}
 			mustOK(e.Tx(e.Admin, m), "start policy")
-			if d, p, w := runBlocks(e, rng, 2); p != "" {
+			if d, p, w := runBlocks(e, rng, 2, nil, rep, nil); p != "" {
 				rep.Violate("C10/hook-panic/setup", p, map[string]interface{}{"where": w, "blocks": d})
 			}
 		}
 		name, msg, fields := buildPolicyMsg(e, rng, kind)
 		cs.Kind, cs.Fields = name, fields
+		pre := polSnapshot(e, e.Height)
 		res := e.Tx(e.Admin, msg)
 		cs.Accepted, cs.Log = res.Code == 0, trunc(res.Log, 100)
+		if cid := pc.addMsg(e, msg, cs.Accepted, pre, polSnapshot(e, e.Height)); cid >= 0 {
+			rep.CaseIndex[fmt.Sprint(cid)] = map[string]interface{}{"message": name, "fields": fields, "accepted": cs.Accepted, "log": cs.Log}
+		}
 		rep.Count(fmt.Sprintf("admin.%s.%s", name, map[bool]string{true: "accepted", false: "rejected"}[cs.Accepted]))
 		if cs.Accepted {
-			cs.Blocks, cs.Panic, cs.PanicAt = runBlocks(e, rng, 9)
+			cs.Blocks, cs.Panic, cs.PanicAt = runBlocks(e, rng, 9, pc, rep, map[string]interface{}{"message": name, "fields": fields})
 			if cs.Panic != "" {
-				sig := fmt.Sprintf("C10/hook-panic/%s/%s", name, panicClass(cs.Panic))
+				sig := fmt.Sprintf("C10/hook-panic/%s/%s/%s", name, panicClass(cs.Panic), strings.Fields(cs.PanicAt)[0])
+				if tag := outsideEnvelope(msg); tag != "" {
+					sig += "/outside-envelope:" + tag
+				}
 				rep.Violate(sig, trunc(cs.Panic, 160)+" in "+cs.PanicAt, cs.replay())
 				rep.Count("admin.hook-panic")
 			}
@@ -277,7 +510,6 @@ func C10(c Ctx) *report.Report {
 		if !seen[key] {
 			seen[key] = true
 		}
-		rep.CaseIndex[fmt.Sprint(id)] = cs.replay()
 		if len(rep.Samples) < 2 {
 			rep.Sample(cs.replay())
 		}
@@ -288,7 +520,15 @@ func C10(c Ctx) *report.Report {
 	for _, h := range c10UserHistories(c, rep, rng) {
 		id += h
 	}
-	rep.Evaluations = id
+	for i := 0; i*400 < len(pc.items); i++ {
+		end := (i + 1) * 400
+		if end > len(pc.items) {
+			end = len(pc.items)
+		}
+		writeCases(c, rep, fmt.Sprintf("cases_C10_%d.v", i), "From Sif Require Import Check.Policy.\n",
+			fmt.Sprintf("Definition cases : list (list int) := %s.\nDefinition M := Eval vm_compute in (pol_mismatches cases).\n", coqList(pc.items[i*400:end])))
+	}
+	rep.Evaluations = id + pc.next
 	rep.DistinctNontrivial = len(seen)
 	rep.Rule = "(a) one case = one admin policy message (8 kinds: reward periods, provider-distribution periods, ratio-shifting params and rates, liquidity-protection params and rates, swap fees, rewards params) with every field drawn from a boundary dictionary (0, 1, h-1..h+8, 2^63-1, 2^63, 2^64-1; decimals -2..1e38 incl. -1 and 1e-18 steps around 0/1; missing optional pointers; unparsable strings), delivered to the real app; every accepted one is followed by 9 blocks with swaps and adds, recover() around BeginBlock/EndBlock; (b) user histories with amounts 0, 1, 2^64, 2^128, dust, rewards buckets and hour epochs, incl. the scripted zero-unit-provider history; non-trivial = distinct (message, fields)"
 	return rep
